@@ -28,8 +28,12 @@ def structureOk (p : Program) (c : MemRef) (n : Nat) (o : Program) : Bool :=
    | 0 => o.regions == p.regions && o.body.isEmpty
    | 1 => o.regions == p.regions && o.body == p.body
    | _ =>
-     -- every other region keeps its descriptor and its relative order; the counter is INTEGER[1]
+     -- every other region keeps its descriptor and its relative order; the counter is an unshared INTEGER region
+     -- long enough to hold the referenced element (u64::MAX cannot be exceeded: the length saturates there)
      (o.regions.filter (fun r => r.1 != c.name)) == (p.regions.filter (fun r => r.1 != c.name)) &&
-     lookupR c.name o.regions == some ⟨"INTEGER", 1, none⟩)
+     (match lookupR c.name o.regions with
+      | some r => r.ty == "INTEGER" && r.sharing.isNone &&
+          (decide (c.index < r.len) || decide (18446744073709551615 ≤ c.index))
+      | none => false))
 
 end QV.C33
